@@ -404,7 +404,7 @@ def finish(ctx, level, violations, known_hits, coverage, assumptions):
     cov.setdefault("samples", (ctx.samples[:4] + [x for x in ctx.samples[4:] if not (isinstance(x, dict) and "steps" in x)][:10]) or ["(none)"])
     cov["tlc_runs"] = ctx.tlc_runs
     cov["counters"] = ctx.counters
-    ev = {"property_id": ctx.prop, "tier": ctx.tier, "seed": ctx.seed, "level": level, "coverage": cov,
+    ev = {"property_id": ctx.prop, "tier": ctx.tier, "seed": getattr(ctx, "given_seed", ctx.seed), "effective_seed": ctx.seed, "level": level, "coverage": cov,
           "assumptions": assumptions, "wall_s": round(time.time() - ctx.t0, 1), "violations": len(violations),
           "known_findings_reproduced": sorted(known_hits.keys()), "notes": ctx.notes}
     json.dump(ev, open(os.path.join(OUT, "evidence", ctx.prop + ".json"), "w"), indent=1)
